@@ -14,6 +14,7 @@ package poolsim
 import (
 	"errors"
 	"fmt"
+	"sync"
 	"time"
 
 	"google.golang.org/grpc/balancer"
@@ -44,6 +45,7 @@ const (
 
 var evNames = [...]string{"NewSubConn", "NewSubConnFail", "RemoveSubConn", "UpdateState", "UpdateAddresses", "Connect", "ResolveNow", "OpStart", "OpEnd", "PickInvoke", "PickReturn", "DoneInvoke", "DoneReturn", "Panic"}
 
+//go:norace
 func (k EvKind) String() string { return evNames[k] }
 
 // Phase of the task that caused an event.
@@ -72,6 +74,7 @@ type Event struct {
 	Note  string
 }
 
+//go:norace
 func (e Event) String() string {
 	s := fmt.Sprintf("#%d t=%v op=%d %s", e.Seq, e.At, e.Op, e.Kind)
 	if e.Conn >= 0 {
@@ -117,7 +120,10 @@ type FakeSC struct {
 	ShutdownSent     bool
 }
 
-func (s *FakeSC) SimID() int     { return s.ID }
+//go:norace
+func (s *FakeSC) SimID() int { return s.ID }
+
+//go:norace
 func (s *FakeSC) String() string { return fmt.Sprintf("sc%d", s.ID) }
 
 //go:norace
@@ -135,10 +141,12 @@ func (s *FakeSC) Connect() {
 	s.ConnectsSeq = s.env.add(Event{Kind: EvConnect, Conn: s.ID})
 }
 
+//go:norace
 func (s *FakeSC) GetOrBuildProducer(balancer.ProducerBuilder) (balancer.Producer, func()) {
 	return nil, func() {}
 }
 
+//go:norace
 func addrsString(a []resolver.Address) string {
 	s := "["
 	for i, x := range a {
@@ -164,9 +172,18 @@ type Env struct {
 	Events  []Event
 	Pubs    []Pub
 	FailNew int // upcoming NewSubConn calls that fail (connection factory error)
-	Fired   map[string]int
+	// pubMu is the synchronisation gRPC really provides between a balancer
+	// publishing a picker and RPC goroutines using it (picker wrapper mutex);
+	// coreMu chains successive balancer callbacks (one serializer goroutine in
+	// gRPC, one task each here). Both are real mutexes so that the race detector
+	// sees exactly these happens-before edges and no others.
+	pubMu     sync.Mutex
+	coreMu    sync.Mutex
+	Fired     map[string]int // scheduler side only
+	taskFired []string       // task side (no shared maps under the race detector)
 }
 
+//go:norace
 func NewEnv(k *kern.Kernel) *Env { return &Env{k: k, Fired: map[string]int{}} }
 
 //go:norace
@@ -189,7 +206,7 @@ func (e *Env) add(ev Event) int {
 	if ev.Kind < EvOpStart {
 		ev.Call = tg.Call
 	}
-	e.Events = append(e.Events, ev)
+	e.Events = kern.Push(e.Events, ev)
 	e.k.Logf("ev %s", ev)
 	return ev.Seq
 }
@@ -207,20 +224,20 @@ func (c *FakeCC) NewSubConn(a []resolver.Address, o balancer.NewSubConnOptions) 
 	e := c.env
 	e.k.Yield("env:NewSubConn")
 	if len(a) == 0 {
-		e.Fired["newsubconn_empty_addrs"]++
+		e.taskFired = kern.Push(e.taskFired, "newsubconn_empty_addrs")
 		e.add(Event{Kind: EvNewSCFail, Conn: -1, Note: "empty"})
 		return nil, errEmptyAddrs
 	}
 	if e.FailNew > 0 {
 		e.FailNew--
-		e.Fired["newsubconn_factory_error"]++
+		e.taskFired = kern.Push(e.taskFired, "newsubconn_factory_error")
 		e.add(Event{Kind: EvNewSCFail, Conn: -1, Note: "factory"})
 		return nil, errFactory
 	}
 	tg := e.tag()
 	sc := &FakeSC{env: e, ID: len(e.Conns), Addrs: addrsString(a), Truth: connectivity.Idle,
 		CreatedPhase: tg.Phase, CreatedOp: tg.Op, CreatedCall: tg.Call}
-	e.Conns = append(e.Conns, sc)
+	e.Conns = kern.Push(e.Conns, sc)
 	sc.AddrsSeq = e.add(Event{Kind: EvNewSC, Conn: sc.ID, Addrs: sc.Addrs})
 	return sc, nil
 }
@@ -253,7 +270,9 @@ func (c *FakeCC) UpdateAddresses(sc balancer.SubConn, a []resolver.Address) {
 func (c *FakeCC) UpdateState(s balancer.State) {
 	e := c.env
 	e.k.Yield("env:UpdateState")
-	e.Pubs = append(e.Pubs, Pub{State: s.ConnectivityState, Picker: s.Picker})
+	e.pubMu.Lock()
+	e.Pubs = kern.Push(e.Pubs, Pub{State: s.ConnectivityState, Picker: s.Picker})
+	e.pubMu.Unlock()
 	i := len(e.Pubs) - 1
 	e.Pubs[i].Seq = e.add(Event{Kind: EvUpdateState, Conn: -1, State: s.ConnectivityState, Pub: i})
 }
@@ -263,4 +282,5 @@ func (c *FakeCC) ResolveNow(resolver.ResolveNowOptions) {
 	c.env.add(Event{Kind: EvResolveNow, Conn: -1})
 }
 
+//go:norace
 func (c *FakeCC) Target() string { return "sim:///pool" }
